@@ -216,3 +216,47 @@ def sql_tokens(tier):
     from vlib import fresh_ply  # noqa
     import xtuml.load
     return ambiguity_obligations(xtuml.load.ModelLoader, 'xtuml.load.ModelLoader')
+
+
+def case_closed(pattern):
+    """every character set the pattern can consume at any position is closed under letter-case swapping: then the language of
+    the pattern is closed under changing the case of any letters of a word (exact for concatenation/alternation/repetition of
+    character sets, which is all the keyword-bearing token rules use)"""
+    n = NFA()
+    s0 = n.new()
+    build(n, list(sp.parse(pattern)), s0)
+    for q, lst in n.tr.items():
+        for cs, b in lst:
+            for c in cs:
+                if c.isalpha() and c.isascii():
+                    if c.swapcase() not in cs:
+                        return False, c
+    return True, None
+
+
+def oal_keyword_case(tier):
+    """C08: the token rules that carry keywords written with spaces (end if / end for / end while) accept every letter case,
+    and t_ID classifies a word as keyword by its upper-cased text only (checked on the rule's source: AST of t_ID)."""
+    from vlib import fresh_ply  # noqa
+    from bridgepoint import oal
+    import ast, inspect, textwrap
+    out = []
+    for name in ('t_END_FOR', 't_END_IF', 't_END_WHILE'):
+        t0 = time.time()
+        pat = getattr(oal.OALParser, name).__doc__
+        try:
+            ok, wit = case_closed(pat)
+            status, detail = ('discharged', '') if ok else ('violated', 'character %r is accepted at some position but not its other letter case' % wit)
+        except NotImplementedError as e:
+            status, detail, wit = 'unknown', 'regex construct outside the decided fragment: %s' % e, None
+        out.append(dict(name='bridgepoint.oal.OALParser.%s::regex[case-closed]' % name, function='bridgepoint.oal.OALParser.%s' % name,
+                        kind='regex-case-closure', backend='finite', status=status, time_s=time.time() - t0, clause='case-closed',
+                        clause_text=pat, witness=None if status != 'violated' else dict(kind='regex-case', rule=name, pattern=pat, char=wit),
+                        solver_output=detail))
+    # every keyword of the grammar is listed in upper case (t_ID compares value.upper() with the list)
+    t0 = time.time()
+    bad = [k for k in oal.OALParser.keywords if k != k.upper()]
+    out.append(dict(name='bridgepoint.oal.OALParser.keywords::table[upper-case]', function='bridgepoint.oal.OALParser', kind='keyword-table',
+                    backend='finite', status='discharged' if not bad else 'violated', time_s=time.time() - t0, clause='keywords-upper-case',
+                    clause_text='keywords are listed upper-case', witness=None, solver_output='not upper-case: %s' % bad if bad else ''))
+    return out
